@@ -203,4 +203,113 @@ theorem ropeInner_ok (E : RopeEnv σ γ) (fixed : Bool) (inp st : List σ) (i : 
           · exact ihj
       · exact ihj
 
+theorem ropeOuter_ok (E : RopeEnv σ γ) (fixed : Bool) (inp st0 : List σ) :
+    ∀ (fuel : Nat) (st : List σ) (i : Nat) (res oob : Bool), Good E inp st →
+      (res = false → st = st0) → (fixed = true → oob = false) →
+      ∃ out r o fo, ropeOuter E fixed fuel st i res oob = some (out, r, o, fo) ∧ Good E inp out ∧
+        (r = false → out = st0) ∧ (fixed = true → o = false) := by
+  intro fuel
+  induction fuel with
+  | zero =>
+    intro st i res oob hG hres hoob
+    exact ⟨st, res, oob, true, rfl, hG, hres, hoob⟩
+  | succ fuel ih =>
+    intro st i res oob hG hres hoob
+    rw [ropeOuter]
+    split
+    · have hk := ropeInner_ok E fixed inp st i hG (st.length - 1) (by omega)
+      generalize ropeInner E fixed st i (st.length - 1) = jr at hk
+      cases jr with
+      | ret st' changed o =>
+        obtain ⟨h1, h2, h3⟩ := hk
+        refine ⟨st', res || changed, oob || o, false, rfl, h1, ?_, ?_⟩
+        · intro h
+          rw [Bool.or_eq_false_iff] at h
+          rw [h2 h.2, hres h.1]
+        · intro h
+          rw [hoob h, h3 h]; rfl
+      | next => exact ih st (i + 1) res oob hG hres hoob
+      | restart st' o =>
+        obtain ⟨h1, h3⟩ := hk
+        refine ih st' 0 true (oob || o) h1 (fun h => absurd h (by simp)) ?_
+        intro h
+        rw [hoob h, h3 h]; rfl
+      | err => exact absurd hk (by simp [JOk])
+    · exact ⟨st, res, oob, false, rfl, hG, hres, hoob⟩
+
+theorem good_self (E : RopeEnv σ γ) (path : List σ) : Good E path path :=
+  ⟨rfl, rfl, derived_of_adj E path⟩
+
+theorem good_densify (E : RopeEnv σ γ) (path : List σ) : Good E path (ropeDensify E path) :=
+  ⟨ropeDensify_head? E path, ropeDensify_getLast? E path, ropeDensify_derived E path⟩
+
+/-- everything at once -/
+theorem rope_spec (E : RopeEnv σ γ) (fixed : Bool) (fuel : Nat) (path : List σ) :
+    ∃ out r o fo, ropeShortcutPath E fixed fuel path = some (out, r, o, fo) ∧ Good E path out ∧
+      (r = false → out = path ∨ out = ropeDensify E path) ∧ (fixed = true → o = false) := by
+  rw [ropeShortcutPath]
+  split
+  · exact ⟨path, false, false, false, rfl, good_self E path, fun _ => Or.inl rfl, fun _ => rfl⟩
+  · obtain ⟨out, r, o, fo, h1, h2, h3, h4⟩ :=
+      ropeOuter_ok E fixed path (ropeDensify E path) fuel (ropeDensify E path) 0 false false
+        (good_densify E path) (fun _ => rfl) (fun _ => rfl)
+    exact ⟨out, r, o, fo, h1, h2, fun h => Or.inr (h3 h), h4⟩
+
+/-! ## the required statements -/
+
+/-- checked indexing: apart from the flagged stale read, no index of the routine is ever out of
+range and no erase range is ill-formed (the model never returns `none`) -/
+theorem rope_indices_partial (E : RopeEnv σ γ) (fixed : Bool) (fuel : Nat) (path : List σ) :
+    (ropeShortcutPath E fixed fuel path).isSome = true := by
+  obtain ⟨out, r, o, fo, h, _⟩ := rope_spec E fixed fuel path
+  rw [h]; rfl
+
+/-- the repaired variant never reads past the end -/
+theorem rope_fixed_no_oob {E : RopeEnv σ γ} {fuel : Nat} {path out : List σ} {r oob fo : Bool}
+    (h : ropeShortcutPath E true fuel path = some (out, r, oob, fo)) : oob = false := by
+  obtain ⟨out', r', o', fo', h', _, _, h4⟩ := rope_spec E true fuel path
+  rw [h] at h'
+  simp only [Option.some.injEq, Prod.mk.injEq] at h'
+  obtain ⟨_, _, rfl, _⟩ := h'
+  exact h4 rfl
+
+theorem rope_keeps_first {E : RopeEnv σ γ} {fixed : Bool} {fuel : Nat} {path out : List σ}
+    {r oob fo : Bool} (h : ropeShortcutPath E fixed fuel path = some (out, r, oob, fo)) :
+    out.head? = path.head? := by
+  obtain ⟨out', r', o', fo', h', hG, _, _⟩ := rope_spec E fixed fuel path
+  rw [h] at h'
+  simp only [Option.some.injEq, Prod.mk.injEq] at h'
+  obtain ⟨rfl, _, _, _⟩ := h'
+  exact hG.1
+
+theorem rope_keeps_last {E : RopeEnv σ γ} {fixed : Bool} {fuel : Nat} {path out : List σ}
+    {r oob fo : Bool} (h : ropeShortcutPath E fixed fuel path = some (out, r, oob, fo)) :
+    out.getLast? = path.getLast? := by
+  obtain ⟨out', r', o', fo', h', hG, _, _⟩ := rope_spec E fixed fuel path
+  rw [h] at h'
+  simp only [Option.some.injEq, Prod.mk.injEq] at h'
+  obtain ⟨rfl, _, _, _⟩ := h'
+  exact hG.2.1
+
+/-- only validated motions: every motion of the result is a piece (in the chain sense) of an input
+motion or of a motion for which checkMotion returned true -/
+theorem rope_only_validated {E : RopeEnv σ γ} {fixed : Bool} {fuel : Nat} {path out : List σ}
+    {r oob fo : Bool} (h : ropeShortcutPath E fixed fuel path = some (out, r, oob, fo)) :
+    ∀ p ∈ adj out, Derived E path p := by
+  obtain ⟨out', r', o', fo', h', hG, _, _⟩ := rope_spec E fixed fuel path
+  rw [h] at h'
+  simp only [Option.some.injEq, Prod.mk.injEq] at h'
+  obtain ⟨rfl, _, _, _⟩ := h'
+  exact hG.2.2
+
+/-- return value false ⇒ only the densification happened -/
+theorem rope_false_unchanged {E : RopeEnv σ γ} {fixed : Bool} {fuel : Nat} {path out : List σ}
+    {oob fo : Bool} (h : ropeShortcutPath E fixed fuel path = some (out, false, oob, fo)) :
+    out = path ∨ out = ropeDensify E path := by
+  obtain ⟨out', r', o', fo', h', _, h3, _⟩ := rope_spec E fixed fuel path
+  rw [h] at h'
+  simp only [Option.some.injEq, Prod.mk.injEq] at h'
+  obtain ⟨rfl, rfl, _, _⟩ := h'
+  exact h3 rfl
+
 end OmplModel.PathOps
